@@ -173,6 +173,7 @@ class Adapter:
             "placed": placed,
             "broken": w["broken"],
             "err": w["err"],
+            "loc": [int(b.spatialLocator.k) for b in a],
             "total": float(a[-1].p.ztop),
             "hsum": float(a.getTotalHeight()),
             "fluid": bad[0] if bad else max(fl, key=lambda x: abs(x - 1.0)),
@@ -261,7 +262,7 @@ def run(rep, tier, seed):
             if res.violation:
                 rep.violation("tlc:" + res.violation["name"], "TLC: %s violated in the specification (%s)" % (res.violation["name"], cfg),
                               {"direction": "tlc", "cfg": cfg, "trace": res.violation["trace"][:20000]})
-            if res.distinct < 1000:
+            elif res.distinct < 1000:
                 raise tlc.MachineryError("exhaustive run %s explored only %d states" % (cfg, res.distinct))
 
     # 2. the statement's literal clauses, one TLC run each: refuted by TLC on the transcription of the code
@@ -547,8 +548,8 @@ def selftest():
     M = _src_mutant
     mutants = [
         ("dummy keeps its own height (assembly height not preserved)",
-         M(C, "axiallyExpandAssembly", "            else:\n                b.p.height = b.p.ztop - b.p.zbottom\n",
-           "            else:\n                b.p.ztop = b.p.zbottom + blockHeight\n                b.p.height = b.p.ztop - b.p.zbottom\n")),
+         M(C, "axiallyExpandAssembly", "        else:\n            b.p.height = b.p.ztop - b.p.zbottom\n",
+           "        else:\n            b.p.ztop = b.p.zbottom + blockHeight\n            b.p.height = b.p.ztop - b.p.zbottom\n")),
         ("block bottom not re-stacked on the block below", M(C, "axiallyExpandAssembly", "if ib > 0:", "if ib > 1:")),
         ("number densities multiplied by the growth fraction", M(C, "axiallyExpandAssembly", "c.changeNDensByFactor(1.0 / growFrac)", "c.changeNDensByFactor(growFrac)")),
         ("number densities changed for the target component only",
@@ -558,11 +559,16 @@ def selftest():
          M(C, "axiallyExpandAssembly", "c.zbottom = self.linked.linkedComponents[c].lower.ztop", "c.zbottom = self.linked.linkedBlocks[b].lower.p.ztop")),
         ("grid bounds not updated", M(C, "axiallyExpandAssembly", "self.linked.a.spatialGrid._bounds = tuple(bounds)", "pass")),
         ("block boundary follows the last solid component, not the target", M(C, "axiallyExpandAssembly", "if self.expansionData.isTargetComponent(c):", "if True:")),
+        ("block mid-plane p.z not updated", M(C, "axiallyExpandAssembly", "b.p.z = b.p.zbottom + b.getHeight() / 2.0", "pass")),
+        ("component volume cache not cleared", M(C, "axiallyExpandAssembly", "c.clearCache()", "pass")),
+        ("block height set to the target component's height", M(C, "axiallyExpandAssembly", "b.p.height = b.p.ztop - b.p.zbottom\n            else:", "b.p.height = c.height\n            else:")),
+        ("reference temperature recorded after the new temperature is set",
+         M(D, "updateComponentTemp", "self.componentReferenceTemperature[c] = c.temperatureInC\n    c.setTemperature(temp)", "c.setTemperature(temp)\n    self.componentReferenceTemperature[c] = c.temperatureInC")),
         ("negative block height accepted", M(X, "_checkBlockHeight", "if b.getHeight() < 0.0:", "if b.getHeight() < -1.0e9:")),
         ("link direction reversed (upper stored as lower)", M(K, "_getLinkedComponents", "AxialLink(lowerC, upperC)", "AxialLink(upperC, lowerC)")),
         ("touching cross-sections count as linked (< becomes <=)", M(L, "areAxiallyLinked", "return biggerID < smallerOD", "return biggerID <= smallerOD")),
         ("multiplicity ignored by the link test", M(L, "areAxiallyLinked", 'and (componentA.getDimension("mult") == componentB.getDimension("mult"))', "")),
-        ("two link candidates silently resolved to the first", M(K, "_findComponentLinkedTo", "            else:\n                errMsg", "            elif False:\n                errMsg")),
+        ("two link candidates silently resolved to the first", M(K, "_findComponentLinkedTo", "        else:\n            errMsg", "        elif False:\n            errMsg")),
         ("zero expansion factor accepted", M(D, "setExpansionFactors", "if exp <= 0.0:", "if exp < 0.0:")),
         ("unlisted components default to the last given factor", M(D, "getExpansionFactor", "self._expansionFactors.get(c, 1.0)",
                                                                  "self._expansionFactors.get(c, list(self._expansionFactors.values())[-1] if self._expansionFactors else 1.0)")),
